@@ -95,17 +95,30 @@ def run(ctx):
         if trees and len(samples) < 2:
             best = max(trees[:200], key=lambda t: max(b["mhpc"] for b in t))
             samples.append(dict(config=name, tree=[dict(id=b["id"], h=b["h"], mhpv=b["mhpv"], mhpc=b["mhpc"]) for b in best]))
+    # conformance of the counting rules on long chains WITH parameter changes (validator joins/leaves, threshold changes,
+    # sliding window): the recorded trace of the real module must be a behaviour of LiskBFT.tla, otherwise the model
+    # checked above does not describe the code
+    from props import c02
+    b2 = ctx.go_build("./cmd/c02")
+    tr = c02.validate(ctx, b2, 400 if ctx.tier == "quick" else 3000, ctx.seed * 31 + 5, "c01")
+    if tr["mismatch"]:
+        mm = tr["mismatch"]
+        ctx.violation("spec-mismatch:trace-" + mm["kind"],
+                      "the real liskbft.Module deviates from LiskBFT.tla (the model on which safety was checked) at trace line %d: %s ; observed %s" % (
+                          mm["line"], str(mm["detail"])[:600], json.dumps(mm["observed"])[:600]),
+                      dict(tree=None, cfg=None, seed=ctx.seed * 31 + 5, chain_prefix=mm["chain_prefix"]))
+    total["trace_events"] = tr["events"]
     if ctx.tier == "thorough":
         # non-vacuity control: with Byzantine weight >= 1/3 the same model must reach a double finalisation
         r = run_model(ctx, "control", cfg_text("LiskBFTTree_control"), None, binp, timeout=900, workers=16, expect_violation=True)
-        if not r["violation"]:
+        if not ctx.violations and (not r["violation"]):
             raise Inconclusive("control model (Byzantine weight >= 1/3) found no double finalisation: bounds too small, run is vacuous")
         ctx.states -= r["distinct"]; ctx.transitions -= r["generated"]
-    if total["paths_with_finality"] == 0:
+    if not ctx.violations and (total["paths_with_finality"] == 0):
         raise Inconclusive("no replayed path reached finality: vacuous")
     cov = dict(traces_validated_against_impl=total["distinct_paths"], samples=samples,
                replayed_trees=total["trees"], replayed_steps=total["steps"],
-               paths_with_finality=total["paths_with_finality"], real_pairs_checked_for_safety=total["pairs_checked"],
+               paths_with_finality=total["paths_with_finality"], trace_events_validated=total.get("trace_events", 0), real_pairs_checked_for_safety=total["pairs_checked"],
                exhaustive=True,
                rule="TLC enumerates every fork tree inside the bounds of each cfg and checks Safety in every state; "
                     "sampled full trees (biased to trees with finality) are replayed block by block through the real liskbft.Module")
